@@ -38,7 +38,6 @@ Proof.
   - repeat (dmH H; try discriminate); inj_inl H; exact Ht.
   - repeat (dmH H; try discriminate); inj_inl H; exact Ht.
   - repeat (dmH H; try discriminate); inj_inl H; exact Ht.
-  - repeat (dmH H; try discriminate); inj_inl H; exact Ht.
   - destruct (find_lf (a :: r)) as [[raw rest]|]; [|discriminate].
     destruct (max_field lim <? lenN (rstrip_cr raw)) eqn:E1; [discriminate|].
     destruct (mt <? lenN (tl ++ [rstrip_cr raw])) eqn:E2; [discriminate|].
